@@ -72,7 +72,7 @@ extern ssize_t mpt_encode_string(MPT_STRUCT(encode_state) *info, const struct io
 			return MPT_ERROR(MissingData);
 		}
 		/* no active message, remove endbyte */
-		if (!(base)[off-1]) {
+		if ((base)[off-1] == (uint8_t) info->_ctx) {
 			--off;
 		}
 		while (1) {
